@@ -583,3 +583,155 @@ def error_scenarios(rng, count):
         b.print(lit("end"))
         out.append(("err:%d:%s:%s:%s" % (k, kind, "-".join(chain), caught_at), b.toks))
     return out
+
+
+# ---------------------------------------------------------------------------------------------------
+# C14: import graphs over main + up to 3 modules
+BAD_SRC = "var = 1;\n"
+
+
+def bad_msg(path):
+    return "Error compiling module:\n    [module \"%s\", line 1] Error at '=': Expected variable name." % path
+
+
+def module_scenarios(rng, count):
+    out = []
+    names = ["ma", "mb", "mc"]
+    for k in range(count):
+        nmod = rng.randint(1, 3)
+        mods = names[:nmod]
+        kinds = {mname: rng.choice(["ok", "ok", "ok", "ok", "missing", "bad", "throws"]) for mname in mods}
+        edges = {mname: [o for o in mods if rng.random() < 0.4] for mname in mods}       # includes self loops
+        modrecs = []
+        for mi, mname in enumerate(mods):
+            if kinds[mname] == "missing":
+                continue
+            if kinds[mname] == "bad":
+                modrecs.append({"path": mname, "bad": True, "msg": bad_msg(mname), "src": BAD_SRC, "prog": []})
+                continue
+            b = Builder(first_decl=1000 * (mi + 1))
+            b.print(lit("body of " + mname))
+            b.var("g", lit("g@" + mname))
+            b.var("only_" + mname, lit(1))
+            b.fn("f", []); b.ret(tup(lit("f in " + mname), b.v("g"))); b.end()
+            b.fn("builtins", []); b.ret(tup(call(b.v("type"), lit(1)), b.v("Vec"), b.v("StopIter"), inv(inv(vec(lit(1)), "iter"), "collect"))); b.end()
+            for o in edges[mname]:
+                style = rng.choice(["top", "try", "fn"])
+                alias = "im_" + o
+                if style == "top":
+                    b.import_(o, alias); b.print(tup(lit(mname + " sees"), get(b.v(alias), "g")))
+                elif style == "try":
+                    b.try_(); b.import_(o, alias); b.print(tup(lit(mname + " sees"), get(b.v(alias), "g"))); b.catch("e"); b.print(tup(lit(mname + " import failed"), call(b.v("type"), b.v("e")), get(b.v("e"), "context"))); b.end()
+                else:
+                    b.fn("late_" + o, []); b.import_(o, alias); b.ret(get(b.v(alias), "g")); b.end()
+            if kinds[mname] == "throws":
+                b.throw(lit(mname + " failed while loading"))
+            b.print(lit("end of " + mname))
+            modrecs.append({"path": mname, "prog": b.toks})
+        b = Builder()
+        b.var("g", lit("g@main"))
+        nsteps = rng.randint(2, 6)
+        for step in range(nsteps):
+            target = rng.choice(mods + (["nowhere"] if rng.random() < 0.1 else []))
+            alias = "x%d" % step
+            act = rng.choice(["import-print", "import-call", "import-twice-same", "import-in-fn", "set-attr", "missing-attr", "late", "leak-check",
+                              "builtins", "import-uncaught"])
+            if act == "import-uncaught":
+                if step < nsteps - 1:
+                    act = "import-print"
+                else:
+                    b.import_(target, alias); b.print(get(b.v(alias), "g")); continue
+            b.try_()
+            if act == "import-print":
+                b.import_(target, alias); b.print(b.v(alias)); b.print(get(b.v(alias), "g"))
+            elif act == "import-call":
+                b.import_(target, alias); b.print(inv(b.v(alias), "f"))
+            elif act == "import-twice-same":
+                b.import_(target, alias); b.import_(target, alias + "b"); b.print(bin_("==", b.v(alias), b.v(alias + "b")))
+            elif act == "import-in-fn":
+                b.fn("imp%d" % step, []); b.import_(target, "inner"); b.ret(get(b.v("inner"), "g")); b.end(); b.print(call(b.v("imp%d" % step))); b.print(call(b.v("imp%d" % step)))
+            elif act == "set-attr":
+                b.import_(target, alias); b.expr(setf(b.v(alias), "g", lit("changed by main"))); b.print(inv(b.v(alias), "f")); b.expr(setf(b.v(alias), "fresh", lit(7))); b.print(get(b.v(alias), "fresh"))
+            elif act == "missing-attr":
+                b.import_(target, alias); b.print(get(b.v(alias), "no_such_name"))
+            elif act == "late":
+                b.import_(target, alias); other = rng.choice(mods); b.print(inv(b.v(alias), "late_" + other))
+            elif act == "leak-check":
+                b.import_(target, alias); b.print(b.v("g")); b.print(b.v("only_" + target))
+            elif act == "builtins":
+                b.import_(target, alias); b.print(inv(b.v(alias), "builtins"))
+            b.catch("e"); b.print(tup(lit("main caught"), call(b.v("type"), b.v("e")), get(b.v("e"), "context"))); b.end()
+        b.print(b.v("g"))
+        out.append(("mod:%d" % k, {"snips": [{"prog": b.toks}], "mods": modrecs}))
+    return out
+
+
+# ---------------------------------------------------------------------------------------------------
+# C15: sequences of snippets fed to one interpreter
+def snippet_scenarios(rng, count):
+    out = []
+    catalogue = ["def-var", "def-fn", "def-class", "use-var", "use-fn", "use-class", "compile-error", "throw-top", "throw-nested", "throw-in-fiber",
+                 "throw-in-finally", "builtin-error", "import", "import-failing", "reset", "try-finally-ok", "fiber-persist", "fiber-resume",
+                 "uncaught-in-class-def", "closure-persist", "mutate-var", "throw-through-two-finally", "error-in-method"]
+    for k in range(count):
+        n = rng.randint(2, 6)
+        snips = []
+        mods = [{"path": "lib", "prog": None}, {"path": "broken", "prog": None}]
+        lb = Builder(first_decl=5000); lb.print(lit("lib body")); lb.var("v", lit("lib.v")); lb.fn("f", []); lb.ret(lit("lib.f")); lb.end()
+        mods[0]["prog"] = lb.toks
+        bb = Builder(first_decl=6000); bb.print(lit("broken body")); bb.throw(lit("broken while loading"))
+        mods[1]["prog"] = bb.toks
+        for si in range(n):
+            kind = rng.choice(catalogue)
+            b = Builder(first_decl=100 * (si + 1))
+            if kind == "compile-error":
+                snips.append({"bad": True, "src": "var x = (1;\n", "messages": ["[module \"main\", line 1] Error at ';': Expected ')' after expression."], "prog": []})
+                continue
+            if kind == "reset":
+                snips.append({"reset": True})
+                continue
+            if kind == "def-var":
+                b.var("shared", lit("set in %d" % si)); b.print(b.v("shared"))
+            elif kind == "def-fn":
+                b.fn("helper", ["x"]); b.ret(tup(lit("helper%d" % si), b.v("x"))); b.end()
+            elif kind == "def-class":
+                b.class_("Kept", ctor="new"); b.method("who", []); b.ret(lit("Kept%d" % si)); b.end(); b.end()
+            elif kind == "use-var":
+                b.print(b.v("shared"))
+            elif kind == "use-fn":
+                b.print(call(b.v("helper"), lit(si)))
+            elif kind == "use-class":
+                b.print(inv(inv(b.v("Kept"), "new"), "who"))
+            elif kind == "throw-top":
+                b.print(lit("before")); b.throw(lit("top %d" % si)); b.print(lit("after"))
+            elif kind == "throw-nested":
+                b.fn("deep2", []); b.var("l", lit(1)); b.throw(lit("nested %d" % si)); b.end(); b.fn("deep1", []); b.try_(); b.expr(call(b.v("deep2"))); b.finally_(); b.print(lit("deep1 finally")); b.end(); b.end(); b.expr(call(b.v("deep1")))
+            elif kind == "throw-in-fiber":
+                b.var("fib", inv(b.v("Fiber"), "new", b.lam([], lambda: call(b.v("no_such_function"))))); b.print(lit("calling")); b.expr(inv(b.v("fib"), "call"))
+            elif kind == "throw-in-finally":
+                b.try_(); b.print(lit("body")); b.finally_(); b.throw(lit("from finally %d" % si)); b.end()
+            elif kind == "builtin-error":
+                b.try_(); b.print(idx(vec(), lit(0))); b.finally_(); b.print(lit("fin")); b.end()
+            elif kind == "import":
+                b.import_("lib", "lib"); b.print(inv(b.v("lib"), "f"))
+            elif kind == "import-failing":
+                b.import_("broken", "broken"); b.print(lit("unreached"))
+            elif kind == "try-finally-ok":
+                b.try_(); b.print(lit("t")); b.finally_(); b.print(lit("f")); b.end(); b.fn("rf", []); b.try_(); b.ret(lit("r")); b.finally_(); b.print(lit("rf fin")); b.end(); b.end(); b.print(call(b.v("rf")))
+            elif kind == "fiber-persist":
+                b.fn("gen", []); b.expr(inv(b.v("Fiber"), "yield", lit("y1"))); b.expr(inv(b.v("Fiber"), "yield", lit("y2"))); b.ret(lit("gen done")); b.end(); b.var("kept_fiber", inv(b.v("Fiber"), "new", b.v("gen"))); b.print(inv(b.v("kept_fiber"), "call"))
+            elif kind == "fiber-resume":
+                b.print(inv(b.v("kept_fiber"), "call")); b.print(inv(b.v("kept_fiber"), "has_finished"))
+            elif kind == "uncaught-in-class-def":
+                b.var("NotAClass", lit(3)); b.class_("Broken", sup="NotAClass"); b.end()
+            elif kind == "closure-persist":
+                b.fn("mk", []); b.var("c", lit(0)); b.ret(b.lam([], lambda: b.assign("c", bin_("+", b.v("c"), lit(1))))); b.end(); b.var("counter", call(b.v("mk"))); b.print(call(b.v("counter")))
+            elif kind == "mutate-var":
+                b.expr(b.assign("shared", lit("mutated in %d" % si))); b.print(call(b.v("counter")))
+            elif kind == "throw-through-two-finally":
+                b.try_(); b.try_(); b.throw(lit("two %d" % si)); b.finally_(); b.print(lit("inner")); b.end(); b.finally_(); b.print(lit("outer")); b.end()
+            elif kind == "error-in-method":
+                b.class_("Tmp", ctor="new"); b.method("boom", []); b.ret(bin_("-", lit("x"), lit(1))); b.end(); b.end(); b.print(inv(inv(b.v("Tmp"), "new"), "boom"))
+            snips.append({"prog": b.toks})
+        out.append(("snip:%d" % k, {"snips": snips, "mods": mods}))
+    return out
